@@ -3,7 +3,7 @@
  * pattern ops / clear / execute on the real event queue, issued from outside
  * the dispatcher and from inside running event actions (nested bodies), checked
  * against a reference model: a plain array of pending events, next to run =
- * minimum by (time ascending, priority descending, handle ascending).
+ * minimum by (time ascending, priority descending, order of issue).
  */
 #include <inttypes.h>
 #include <math.h>
@@ -76,7 +76,9 @@ static bool runs_before(const struct mev *a, const struct mev *b)
 {
     if (a->time != b->time) return a->time < b->time;
     if (a->prio != b->prio) return a->prio > b->prio;
-    return a->handle < b->handle;
+    /* "the earlier-issued handle runs first": evs[] is in order of issue, so the index decides - not the
+     * numeric value of the handles, which the library is free to choose */
+    return a < b;
 }
 
 static int model_next(void)
